@@ -184,8 +184,11 @@ static bool apply(World& w, const Op& op)
       if (m.st[i] == S_FAILED) return false; // unconstrained: do not explore further
       if (m.st[i] == S_CREATED) {
         n_nontriv++;
-        if (o != ABORT) viol(sg("create", "created-twice"), kase, "create_sandbox on a created sandbox did not abort");
-        return false;
+        if (o != ABORT) {
+          viol(sg("create", "created-twice"), kase, "create_sandbox on a created sandbox did not abort");
+          return false;
+        }
+        break; // refused: the object must be exactly as before; the history goes on
       }
       if (o != RET) {
         viol(sg("create", "abort"), kase, "create_sandbox on a sandbox that is not created aborted");
@@ -210,8 +213,11 @@ static bool apply(World& w, const Op& op)
       if (m.st[i] == S_FAILED) return false;
       if (m.st[i] != S_CREATED) {
         n_nontriv++;
-        if (o != ABORT) viol(sg("destroy", "not-created"), kase, "destroy_sandbox on a sandbox that is not created did not abort");
-        return false;
+        if (o != ABORT) {
+          viol(sg("destroy", "not-created"), kase, "destroy_sandbox on a sandbox that is not created did not abort");
+          return false;
+        }
+        break; // refused: nothing changed; the history goes on
       }
       if (o != RET) {
         viol(sg("destroy", "abort"), kase, "destroy_sandbox on a created sandbox aborted");
@@ -226,8 +232,11 @@ static bool apply(World& w, const Op& op)
       auto o = attempt([&] { w.own[i].emplace(sb.register_callback(cbf)); });
       if (m.st[i] != S_CREATED) {
         n_nontriv++;
-        if (o != ABORT) viol(sg("register", "outside-window"), kase, "register_callback on a sandbox that is not created did not abort");
-        return false;
+        if (o != ABORT) {
+          viol(sg("register", "outside-window"), kase, "register_callback on a sandbox that is not created did not abort");
+          return false;
+        }
+        break; // refused: nothing changed; the history goes on
       }
       if (o != RET) {
         viol(sg("register", "abort"), kase, "registration on a created sandbox aborted");
